@@ -138,6 +138,20 @@ class ASTSchemaPrinter:
         lines = list(wrapped_lines(definition.description.split("\n"), max_len))
         first = lines[0]
 
+        rest = [line for line in lines[1:] if line.strip(" \t")]
+        if first[:1] in (" ", "\t") and rest and all(
+            line[:1] in (" ", "\t") for line in rest
+        ):
+            # The first line keeps its leading white space only on the line of
+            # the opening quotes, and then the indentation shared by all the
+            # other lines is removed when the block string is read back: no
+            # block string denotes this value, it is printed as a quoted string.
+            return "%s%s%s\n" % (
+                "\n" if indent and not first_in_block else "",
+                indent,
+                print_ast(ast_node_from_value(definition.description, String)),
+            )
+
         if len(lines) == 1 and len(first) < 70 and not first.endswith('"'):
             body = first.replace('"""', '\\"""')
         else:
